@@ -139,6 +139,7 @@ def gen_case(rng, index, tier):
         return dict(mode='history', epochs=epochs, sched=sched, faults=[], func_fail_at=rng.choice([[], [1], [1], [1, 2], [2]]), gran='sync', work=work)
     # a small pool of operations so that callers collide on keys
     pool = [gen_op(rng, small=rng.random() < 0.9) for _ in range(rng.choice([1, 2, 2, 3]))]
+    twin = None
     if rng.random() < 0.6:
         # a near-collision: same function / recursion, one argument changed (keys must differ, results must not leak)
         v = copy.deepcopy(rng.choice(pool))
@@ -168,6 +169,7 @@ def gen_case(rng, index, tier):
         else:
             v['args'][-1] = v['args'][-1] + 1
         pool.append(v)
+        twin = v
     for v in list(pool):
         if v['t'] == 'iter' and rng.random() < 0.35:
             w = copy.deepcopy(v)
@@ -213,6 +215,15 @@ def gen_case(rng, index, tier):
         if e > 0 and rng.random() < 0.35:
             pre.append(dict(which=rng.randrange(0, 12), kind=rng.choice(['empty', 'truncate', 'truncate', 'bogus', 'old_ok', 'old_fail']), u=rng.random()))
         epochs.append(dict(callers=callers, pre=pre))
+    if twin is not None and twin['t'] == 'call' and rng.random() < 0.6:
+        # the near-collision twin and an operation on the same function in ONE process, back to back (whatever that process remembers between
+        # calls must not leak from one to the other)
+        same = [o for o in pool if o is not twin and o['t'] == 'call' and o['f'] == twin['f']]
+        if same:
+            pair = [copy.deepcopy(rng.choice(same)), copy.deepcopy(twin)]
+            rng.shuffle(pair)
+            c = rng.choice(rng.choice(epochs)['callers'])
+            c['ops'] = pair + c['ops'][:1]
     func_fail_at = sorted(set(rng.randint(1, 8) for _ in range(rng.choice([0, 0, 0, 1, 2]))))
     from . import c16
     return dict(mode='history', epochs=epochs, sched=c16.gen_sched(rng), faults=faults, func_fail_at=func_fail_at,
